@@ -1,6 +1,7 @@
 package network
 
 import (
+	"context"
 	"errors"
 	"io"
 	"net/http"
@@ -33,6 +34,21 @@ type vhBadBody struct{}
 func (vhBadBody) Read(p []byte) (int, error) { return 0, errVhRead }
 func (vhBadBody) Close() error               { return nil }
 
+var errVhCanceled = errors.New("context canceled")
+
+type vhCtxBody struct {
+	ctx context.Context
+	r   io.Reader
+}
+
+func (b vhCtxBody) Read(p []byte) (int, error) {
+	if vfCtxDone(b.ctx) {
+		return 0, errVhCanceled
+	}
+	return b.r.Read(p)
+}
+func (b vhCtxBody) Close() error { return nil }
+
 func (t *vhTransport) RoundTrip(req *http.Request) (*http.Response, error) {
 	t.seen = append(t.seen, vhSeen{method: req.Method, url: req.URL.String(), header: req.Header, body: req.Body, trace: req.Header.Get("X-Trace")})
 	if t.log != nil {
@@ -50,7 +66,9 @@ func (t *vhTransport) RoundTrip(req *http.Request) (*http.Response, error) {
 	if t.badBody {
 		resp.Body = vhBadBody{}
 	} else {
-		resp.Body = io.NopCloser(strings.NewReader(t.respBody))
+		// like a real transport's, the body can be read only while the request's context is alive ("ctx controls the
+		// entire lifetime of a request and its response: ... reading the response headers and body", net/http)
+		resp.Body = vhCtxBody{ctx: req.Context(), r: strings.NewReader(t.respBody)}
 	}
 	return resp, nil
 }
